@@ -93,6 +93,12 @@ def run(ctx):
             recs = [(("%s%s_%s%d" % (pre, hi, rng.choice(["", "A", chr(rng.randint(0xC0, 0xFF))]), k)) if k < keep else nm, q[:L0] if k < keep else q) for k, (nm, q) in enumerate(recs)]
             ctx.count("names_with_high_bytes")
             highnames = True
+        if i % 7 == 2 and len(recs) >= 3:
+            # records without residues (two to four of them, distinct names): the library drops them wherever they stand -- first, last, next to
+            # each other -- and the rest is aligned as if they were not there
+            for k in range(rng.randint(2, 4)):
+                recs.insert(rng.randint(0, len(recs)), ("%s_empty%d" % (recs[0][0][:20], k), ""))
+            ctx.count("sets_with_empty_records")
         t = rng.choice([3, 4, 5]) if kind == "protein" else rng.choice([0, 1, 2, 5])
         t = gen.fit_type(t, kind, recs)
         th = rng.choice([1, 8])
@@ -101,6 +107,10 @@ def run(ctx):
         k = rng.randrange(1, len(recs)); perms.append(recs[k:] + recs[:k])
         for _ in range(2 if ctx.quick else 5):
             p = list(recs); rng.shuffle(p); perms.append(p)
+        if any(not q for _, q in recs):
+            ne = [r for r in recs if r[1]]
+            em = [r for r in recs if not r[1]]
+            perms += [ne + em, em + ne, ne[:1] + em[:1] + ne[1:] + em[1:]]
         grp = [Case(p, t, threads=th, fmt=("fasta" if longnames or highnames else rng.choice(["fasta", "clu", "msf"])), evlog=True) for p in perms]
         if highnames:
             for c_ in grp:
@@ -149,7 +159,7 @@ def run(ctx):
                 fails.append(("permuted run failed: %s" % c.status, c.describe()))
                 continue
             rows = sysrun.parse_output(c)
-            if [n for n, _ in rows] != [n for n, _ in c.records]:
+            if [n for n, _ in rows] != [n for n, q in c.records if q]:
                 fails.append(("rows not in the (permuted) input order", dict(case=c.describe(), rows=rows)))
                 continue
             if columns(rows) != cols0:
